@@ -351,6 +351,7 @@ class Runner:
             path = self.write_replay("nofail", {"property": pid, "kind": "no-failing-input-found",
                                                 "no_longer_checks": what, "proof_problems": proof_problems,
                                                 "first_disagreement": dis, "case": r["case"] if r else None,
+                                                "first_request": (r.get("model_req") if r else None),
                                                 "cases": [d[0]["case"] for d in disagreements[:5]],
                                                 "searched_cases": searched, "seed": self.seed, "tier": self.tier})
             self.say(f"VIOLATION property={pid} replay={path} no-failing-input-found")
